@@ -7,6 +7,7 @@ pub mod panicmon;
 pub mod report;
 pub mod rng;
 pub mod search_ref;
+pub mod simlog;
 pub mod workers;
 pub mod wrap;
 
